@@ -11,6 +11,22 @@ def run_inproc(pid, cases):
     return list(mod.run_cases(cases))
 
 
+def _clear_caches():
+    import sys as _sys
+
+    if "jax" in _sys.modules:
+        try:
+            import jax
+
+            jax.clear_caches()
+            from mc import impl
+
+            impl.fixed_grid_program.cache_clear()
+            impl.adaptive_program.cache_clear()
+        except Exception:  # noqa: BLE001
+            pass
+
+
 def main(argv):
     pid, fin, fout = argv
     try:
@@ -18,7 +34,7 @@ def main(argv):
         # MemoryError inside the case (reported as a failure of that case), not in an exhausted machine
         import resource
 
-        lim = int(float(os.environ.get("VERIF_WORKER_MEM_GB", "20")) * 2 ** 30)
+        lim = int(float(os.environ.get("VERIF_WORKER_MEM_GB", "64")) * 2 ** 30)  # virtual address space (JIT code counts)
         resource.setrlimit(resource.RLIMIT_AS, (lim, lim))
     except Exception:  # noqa: BLE001
         pass
@@ -26,9 +42,18 @@ def main(argv):
     try:
         mod = importlib.import_module(f"mc.props.{pid}")
         with open(fout, "w") as out:
-            for r in mod.run_cases(cases):
-                out.write(json.dumps(r, default=str) + "\n")
-                out.flush()
+            # cases of one group share compiled programs; between groups the JIT caches are dropped so that a long shard does not
+            # accumulate thousands of compiled programs
+            groups = []
+            for c in cases:
+                if not groups or groups[-1][0]["group"] != c["group"]:
+                    groups.append([])
+                groups[-1].append(c)
+            for g in groups:
+                for r in mod.run_cases(g):
+                    out.write(json.dumps(r, default=str) + "\n")
+                    out.flush()
+                _clear_caches()
     except Exception:
         traceback.print_exc()
         with open(fout, "a") as out:
